@@ -56,8 +56,10 @@ def sites(prog, fn, include_borrows=False, include_macro=False):
                 out.append({'bb': bb, 'kind': 'panic:' + (mac or cs) + ((':' + msg) if msg else ''), 'term': t, 'mac': mac})
             elif is_index_call(t):
                 st = t['f'].get('self', '') or ''
-                if 'serde_json::value::Value' in st and 'IndexMut' not in (t['f'].get('trait') or ''):
-                    continue     # serde_json's immutable Index yields Null instead of panicking
+                if st.lstrip('&').replace('mut ', '').startswith('serde_json::value::Value') \
+                        and 'IndexMut' not in (t['f'].get('trait') or ''):
+                    continue     # serde_json's immutable Index on a Value yields Null instead of panicking
+                                 # (on a serde_json::Map - whose type mentions Value as a parameter - it panics)
                 k = 'slice:' if re.search(r'Range', ' '.join(t['f'].get('targs', []))) else 'index:'
                 out.append({'bb': bb, 'kind': k + cs, 'term': t, 'mac': mac})
             elif cs in METHODS:
